@@ -295,7 +295,7 @@ def _userfunc(prog):
     """An abstract array function for signal_transform: returns an array of another dtype (like np.abs on complex data)."""
     def handler(ev, args, kwargs, node, fr, fn):
         x = args[0]
-        return Num(sp.Function("UserFunc")(x.expr, *[v.expr for v in kwargs.values() if isinstance(v, Num)]), kind="array", shape=x.shape,
+        return Num(sp.Function("UserFunc")(x.expr, *[v.expr for v in list(args[1:]) + list(kwargs.values()) if isinstance(v, Num)]), kind="array", shape=x.shape,
                    backend=x.backend, tag="data", dtype=ExtV("numpy.float64"))
     return handler
 
@@ -352,8 +352,10 @@ def r2(ck, prog, run):
     run.touched(f_st)
     uf = FuncV(prog.func("fast_len"))       # placeholder FuncV object to carry the override
     handler = _userfunc(prog)
-    for kwargs_label, extra in (("", {}), (" with dask_kwargs", {"dask_kwargs": DictV({"chunks": NONE})})):
+    for kwargs_label, extra in (("", {}), (" with dask_kwargs", {"dask_kwargs": DictV({"chunks": NONE})}), (" with an extra positional argument", {"__pos__": [Num(7)]})):
         out = {}
+        extra = dict(extra)
+        pos = extra.pop("__pos__", [])
         for backend in ("numpy", "dask"):
             z = make_signal(prog, "BasebandSignal", nchan=2, backend=backend)
             ev = ck.evaluator(overrides={"pulsarbat.transforms.transforms.fast_len": handler})
@@ -363,7 +365,7 @@ def r2(ck, prog, run):
                 continue
             kw = dict(extra, signal_type=ClassV(prog.cls("RadioSignal")), width=Num(3))
             out[backend] = (ck.attempt("R2", f_st.where, f"signal_transform(func)(z, width=3){kwargs_label} [{backend}]", "evaluates",
-                                       lambda: ev.apply(wrapper, [z], kw, FR()), ev=ev, allowed_guards=["TypeError"]), ev)
+                                       lambda: ev.apply(wrapper, [z] + list(pos), kw, FR()), ev=ev, allowed_guards=["TypeError"]), ev)
         if len(out) == 2 and out["numpy"][0] is not None and out["dask"][0] is not None:
             on, od = out["numpy"][0], out["dask"][0]
             dn, dd = on.attrs["_data"], od.attrs["_data"]
